@@ -48,6 +48,8 @@ def build_requests(cfgs_exprs, tier, r):
         elif cfg["k"] in ("chunk", "item") and not gen.violations(cfg):
             n = len(gen.encode(cfg))
         bufs = plan_bufs(n, tier, r)
+        if cfg.get("_big") and n and n > 100000:
+            bufs = [(n, "ee"), (n - 1, "pat")]       # a quarter of a megabyte each: exactly the size, and one less
         mm = dict(meta); mm.update({"op": "build", "cfg": cfg, "expr": expr, "bufs": bufs})
         out.append((gen.build_req(expr, bufs), mm))
     return out
